@@ -1,8 +1,9 @@
 """C10 — see DESIGN.md §7 and docs/CLIENT_MACHINE.md."""
 import rpcflow
+import vlib
 
 SUB = "c10"
-MODULES = ["Mtv.Props.C10", "Mtv.Props.ClientImpl", "Mtv.Props.C10Life"]
+MODULES = ["Mtv.Props.C10", "Mtv.Props.ClientImpl", "Mtv.Props.C10Life", "Mtv.Props.Arith"]
 THEOREMS = [
     "Mtv.Client.genId_mult4",
     "Mtv.Client.genId_time",
@@ -34,7 +35,8 @@ RULE = ('scenarios with 1..10 (thorough 24) concurrent callers and content-relat
 
 def run(ctx):
     ctx.assumptions += ["the Go runtime's scheduling during a run decides the interleaving actually exercised (sampled, not enumerated)", 'warnings are drained by the harness (a full user warning channel would block the receive loop: environment assumption)']
-    return rpcflow.run(ctx, SUB, MODULES, THEOREMS, RULE, gen_hook=rpcflow.regen_skeleton)
+    return rpcflow.run(ctx, SUB, MODULES, THEOREMS + vlib.ARITH_THEOREMS["C10"], RULE,
+                       gen_hook=lambda c: (rpcflow.regen_skeleton(c), vlib.regen_arith(c)))
 
 
 def replay(ctx, path):
